@@ -7,6 +7,7 @@ package world
 import (
 	"bytes"
 	"fmt"
+	"io"
 	"io/ioutil"
 	"net"
 	"net/http"
@@ -409,6 +410,11 @@ func (w *World) Do(proc, disp, method, host, uri string, hdr http.Header) *Resul
 
 // DoCase like Do, with a decision-table case attached to the request (the upstream Policy sees it)
 func (w *World) DoCase(proc, disp, method, host, uri string, hdr http.Header, cs interface{}) *Result {
+	return w.DoBody(proc, disp, method, host, uri, hdr, cs, "")
+}
+
+// DoBody like DoCase, with a request body
+func (w *World) DoBody(proc, disp, method, host, uri string, hdr http.Header, cs interface{}, body string) *Result {
 	gid := sched.Gid()
 	w.mu.Lock()
 	w.nextRid++
@@ -421,7 +427,11 @@ func (w *World) DoCase(proc, disp, method, host, uri string, hdr http.Header, cs
 		ri.sproc = w.S.Proc(proc)
 	}
 
-	req := httptest.NewRequest(method, uri, nil)
+	var rd io.Reader
+	if body != "" {
+		rd = strings.NewReader(body)
+	}
+	req := httptest.NewRequest(method, uri, rd)
 	req.Host = host
 	for k, v := range hdr {
 		req.Header[k] = v
@@ -751,7 +761,9 @@ func (w *World) upstreamHandler(rw http.ResponseWriter, req *http.Request) {
 		rw.WriteHeader(200) // health check or foreign request
 		return
 	}
-	_, _ = ioutil.ReadAll(req.Body)
+	if data, err := ioutil.ReadAll(req.Body); err == nil {
+		req.Body = ioutil.NopCloser(bytes.NewReader(data)) // the Policy may want to look at it
+	}
 	var out Outcome
 	if ri.Proc != "" {
 		w.S.AuxGate(ri.sproc, "upstream")
